@@ -197,6 +197,21 @@ CLAIMED = {
         "technique": "Coq proof (integer arithmetic, list induction) on a hand rendering model; exact string differential",
         "design": "DESIGN.md section 5, C16",
     },
+    "C20": {
+        "text": "Coq theorems (props/C20.v): (a) over the parameter expressions of every rng.* call and the _check_params domain "
+                "REGENERATED from datasets.py - on the whole accepted domain every distribution parameter is valid in both "
+                "variants (incl. the covariate draws for every value of the earlier draws), treatment odds = ratio, and with the "
+                "textbook means the requested uplifts / control averages are exactly the expected relative differences, for users "
+                "and sessions data; covariates carry no uplift; (b) over a hand model of the table assembly as a function of the "
+                "Generator's return values - all documented value invariants, one row per user 0..n-1, sessions data = "
+                "per-session explosion of the users of the same draws, covariates constant within a user, rounding facts. "
+                "Tie: recorded rng parameters vs genQ, recorded draws replayed through the model vs the real table",
+        "note": "trusted: Coq kernel, stdlib real axioms, extractor, hand model, textbook means + independence, numpy range "
+                "contracts (observed), numpy determinism / return-type equality by oracle only (C20_generator_partial)",
+        "technique": "Coq proof (field/lra over regenerated expressions; list induction over a hand model) + recording/replaying "
+                     "the numpy Generator; statistical calibration oracle",
+        "design": "DESIGN.md section 5, C20",
+    },
 }
 REASONS = {}
 
